@@ -195,12 +195,16 @@ def run(ctx, progs):
         c01.rule_references(rep68, prog, eff)
         for nm in ("store", "load"):
             for b in prog.find(adt="volatile_memory::VolatileSlice", trait=BYTES, name=nm):
-                for cb in prog.closures_of(b):
-                    cs = [c for c in cb.calls() if canon(c.callee or "").endswith("AtomicInteger::" + nm)]
-                    ok = False
-                    if len(cs) == 1:
-                        _pb, o = eff.lift(cb, cs[0].args()[-1])
-                        ok = unref(o)[:2] == ('param', 4 if nm == "store" else 3)
+                # the access may sit in the function itself (`let r = get_atomic_ref(..)?; r.store(..)`) or in a closure of it
+                # (`get_atomic_ref(..).map(|r| r.store(..))`): one source-level function either way
+                sites = [(fb, c) for fb in prog.family(b) for c in fb.calls() if canon(c.callee or "").endswith("AtomicInteger::" + nm)]
+                ok = False
+                if len(sites) == 1:
+                    cb, c0 = sites[0]
+                    _pb, o = eff.lift(cb, c0.args()[-1])
+                    ok = unref(o)[:2] == ('param', 4 if nm == "store" else 3)
+                if True:
+                    cb = b
                     ctx.ob("R6.8.order_passed", cb.key, ok, cb.where(), "the caller's `order` reaches AtomicInteger::" + nm + " unchanged")
     ctx.not_decided = ["what a concurrent observer sees (schedules)", "codegen: one volatile access => one instruction"]
     return ctx.finish(
